@@ -547,7 +547,14 @@ func (r *runningStep) provideEnablingInput(input map[string]any) error {
 	}
 	// Check to make sure it's enabled.
 	// This is an optional field, so no input means enabled.
-	enabled := input["enabled"] == nil || input["enabled"] == true
+	enabled := true
+	if input["enabled"] != nil {
+		unserializedEnabled, err := schema.NewBoolSchema().Unserialize(input["enabled"])
+		if err != nil {
+			return fmt.Errorf("invalid enabled value (%w)", err)
+		}
+		enabled = unserializedEnabled.(bool)
+	}
 	r.enabledInputAvailable = true
 	r.enabledInput <- enabled
 	verifhook.Emit("SProv", "obj", r, "stage", "enabling", "ok", true, "val", enabled, "state", string(r.currentState))
